@@ -366,3 +366,9 @@ package util
 //@   requires inInt32(t1) && inInt32(t2) && (forall k :: 0 <= k && k < len(arr) ==> inInt32(arr[k]))
 //@   ensures[C07.closest] t1 <= t2 ==> r1 <= r2
 //@   modifies nothing
+
+//@ extern func sort.SearchInts(a []int, x int) (i int)
+//@   effectfree
+//@   ensures 0 <= i && i <= len(a)
+//@   ensures (forall j int, k int :: 0 <= j && j < k && k < len(a) ==> a[j] <= a[k]) ==> (forall j int :: 0 <= j && j < i ==> a[j] < x) && (forall j int :: i <= j && j < len(a) ==> a[j] >= x)
+//@   trusted "sort.SearchInts: binary search on an ascending slice"
